@@ -57,6 +57,19 @@ def valid_frame(kind: str) -> bytes:
     if kind == "state-sum":
         dev.check = "sum"
         return dev.report(0x02, 9)
+    if kind in ("state-crc0", "state-sum0", "energy-crc0"):
+        # a valid response whose body check byte happens to be 0x00 (one message id in 256 does that)
+        for mid in range(256):
+            if kind == "state-crc0":
+                f = dev.report(0x03, mid)
+            elif kind == "state-sum0":
+                dev.check = "sum"
+                f = dev.report(0x03, mid)
+            else:
+                f = rc.frame_build(bytes([0xC1, 0x21, 0x01, 0x44]) + dev.energy + bytes([mid]), 0x03)
+            if f[-2] == 0:
+                return f
+        raise RuntimeError("no message id gives a zero check byte")
     if kind == "props-ack":
         return dev._props_frame(0xB0, [0x000A, 0x0009], 0x02, 9)
     if kind == "caps":
@@ -163,7 +176,7 @@ def shards(tier):
     out = []
     out += [("lenbyte", lo, lo + 8) for lo in range(0, len(varied_frames()), 8)]
     out += [("same", 0, 0)]
-    for k in KINDS + (["state-sum", "props-ack"] if tier == "thorough" else []):
+    for k in KINDS + ["state-crc0", "state-sum0"] + (["state-sum", "props-ack", "energy-crc0"] if tier == "thorough" else []):
         n = len(valid_frame(k))
         step = 3 if tier == "thorough" else 6
         for lo in range(1, n, step):
